@@ -46,3 +46,5 @@ SPEC = {'id': 'C06',
 
 SPEC['rule'] += (' Added after the seeded-change rounds: ' +
     'Broker side: polls announce every protocol version 1.0 .. 1.3 (pattern-aware from 1.3 in the source; the accepted-pattern field present / absent / empty); patterns that differ only in letter case; the non-TLS opt-in crossed with hosts inside / outside the pattern.')
+
+SPEC['thorough_passes'] = 4  # the thorough tier runs the whole harness under this many consecutive seeds
